@@ -1,6 +1,7 @@
 package vval
 
 import (
+	"context"
 	"fmt"
 	"math/rand"
 	"strings"
@@ -287,6 +288,7 @@ func c17Ops(c *rig.Ctx) {
 		if d < 3 {
 			c.Sample(map[string]any{"doc_head": clipS(string(jMarshal(doc))), "multi_chunk": multi})
 		}
+		var history []string
 		for k := 0; k < opsPerDoc; k++ {
 			op := x.genOp(r, g, ref)
 			refRes := c17Apply(gmstypes.JSONDocument{Val: jClone(ref)}, op)
@@ -314,7 +316,7 @@ func c17Ops(c *rig.Ctx) {
 			c.Distinct(fmt.Sprintf("%s/%s/%v/%s", op.kind, op.cls, multi, served))
 			witness := func() map[string]any {
 				return map[string]any{"doc": clipS(string(jMarshal(ref))), "op": op.kind, "path": op.path, "value": clipS(string(jMarshal(op.val))), "served_by": served,
-					"multi_chunk": multi, "stored_result": clipS(c17Show(stRes)), "reference_result": clipS(c17Show(refRes)), "chain_position": k}
+					"multi_chunk": multi, "stored_result": clipS(c17Show(stRes)), "reference_result": clipS(c17Show(refRes)), "chain_position": k, "chain_ops_so_far": append([]string{}, history...), "doc_case": fmt.Sprintf("c17/doc/%d", d)}
 			}
 			cls := op.cls
 			switch cls {
@@ -323,13 +325,29 @@ func c17Ops(c *rig.Ctx) {
 					cls += "+doc-has-escaped-keys"
 				}
 			}
-			// key layout: path class / outcome / operation / implementation that served it
-			key := fmt.Sprintf("c17/ops/%s", cls)
+			// key layout: path class + cause features / outcome / operation / implementation that served it.
+			// The cause features are established by experiment at the moment a disagreement is seen:
+			//  - path-at-chunk-boundary(<state>): the addressed location is exactly a key of the stored tree's chunk index;
+			//  - only-after-earlier-indexed-edits: the same operation on a freshly stored copy of the same document agrees
+			//    with the reference, i.e. the tree left behind by the earlier indexed edits of this chain is what misbehaves.
+			preStored := stored
+			mkKey := func() string {
+				c2 := cls
+				if f := c17BoundaryFeature(x.ns, preStored, op); f != "" {
+					c2 += "+" + f
+				}
+				if wasIndexed && k > 0 {
+					if fresh := c17Apply(x.index(ref), op); c17Agree(refRes, fresh) {
+						c2 += "+only-after-earlier-indexed-edits"
+					}
+				}
+				return fmt.Sprintf("c17/ops/%s", c2)
+			}
 			tail := fmt.Sprintf("/%s/%s", op.kind, served)
 			bad := false
 			switch {
 			case stRes.panicked != "":
-				lim.Violation(key+"/panic"+tail, "the stored JSON document panics on an operation the in-memory document answers: "+stRes.panicked, witness())
+				lim.Violation(mkKey()+"/panic"+tail, "the stored JSON document panics on an operation the in-memory document answers: "+stRes.panicked, witness())
 				bad = true
 			case refRes.panicked != "":
 				// the reference itself crashed on this input: nothing to compare against (recorded, first few as notes)
@@ -346,18 +364,18 @@ func c17Ops(c *rig.Ctx) {
 				// the reference's own path parser rejects some valid quoted legs; nothing to compare against
 				c.Count("c17.reference_error_only", 1)
 			case (refRes.err != nil) != (stRes.err != nil):
-				lim.Violation(key+"/error-mismatch"+tail, "one implementation fails where the other succeeds", witness())
+				lim.Violation(mkKey()+"/error-mismatch"+tail, "one implementation fails where the other succeeds", witness())
 				bad = true
 			case refRes.err != nil:
 				c.Count("c17.both_error", 1)
 			case refRes.isNil != stRes.isNil:
-				lim.Violation(key+"/null-mismatch"+tail, "one implementation returns SQL NULL where the other returns a document", witness())
+				lim.Violation(mkKey()+"/null-mismatch"+tail, "one implementation returns SQL NULL where the other returns a document", witness())
 				bad = true
 			case !refRes.isNil && !jEqual(refRes.doc, stRes.doc):
-				lim.Violation(key+"/result"+tail, "stored JSON document returns a different result document than the in-memory document", witness())
+				lim.Violation(mkKey()+"/result"+tail, "stored JSON document returns a different result document than the in-memory document", witness())
 				bad = true
 			case refRes.changed != stRes.changed:
-				lim.Violation(key+"/changed-flag"+tail, "stored JSON document reports a different changed flag than the in-memory document", witness())
+				lim.Violation(mkKey()+"/changed-flag"+tail, "stored JSON document reports a different changed flag than the in-memory document", witness())
 				bad = true
 			}
 			if op.kind == "Lookup" || refRes.err != nil || stRes.err != nil {
@@ -374,7 +392,7 @@ func c17Ops(c *rig.Ctx) {
 					viaBytes, err = jParse(b)
 				}
 				if err != nil || !jEqual(viaBytes, refRes.doc) {
-					lim.Violation(key+"/stored-bytes"+tail, "the bytes of the resulting stored document are not the resulting document", witness())
+					lim.Violation(mkKey()+"/stored-bytes"+tail, "the bytes of the resulting stored document are not the resulting document", witness())
 					bad = true
 				}
 				// and reading it afresh from the store (no cached interface) gives the same document
@@ -382,7 +400,7 @@ func c17Ops(c *rig.Ctx) {
 				rig.Must(err2)
 				fresh, err2 := tree.NewIndexedJsonDocument(root, x.ns).ToInterface(bg)
 				if err2 != nil || !jEqual(fresh, refRes.doc) {
-					lim.Violation(key+"/reread"+tail, "the resulting stored document re-read from its root is not the resulting document", witness())
+					lim.Violation(mkKey()+"/reread"+tail, "the resulting stored document re-read from its root is not the resulting document", witness())
 					bad = true
 				}
 			}
@@ -390,6 +408,7 @@ func c17Ops(c *rig.Ctx) {
 				break // do not cascade
 			}
 			ref = jNorm(refRes.doc)
+			history = append(history, op.kind+" "+op.path)
 			// continue the chain on the stored result; a fallback returns an in-memory document, which is re-stored
 			if idx, ok := stRes.wrapper.(tree.IndexedJsonDocument); ok {
 				stored = idx
@@ -428,6 +447,63 @@ func c17LookupModelDisagrees(op c17Op, doc any, ref c17Result) bool {
 		return true
 	}
 	return ok && !jEqual(want, ref.doc)
+}
+
+// c17Agree: do two results agree on everything the monitor compares?
+func c17Agree(a, b c17Result) bool {
+	if a.panicked != "" || b.panicked != "" || (a.err != nil) != (b.err != nil) {
+		return false
+	}
+	if a.err != nil {
+		return true
+	}
+	if a.isNil != b.isNil || a.changed != b.changed {
+		return false
+	}
+	return a.isNil || jEqual(a.doc, b.doc)
+}
+
+var c17StateNames = []string{"start-of-value", "object-initial-element", "array-initial-element", "end-of-value", "middle-of-string"}
+
+// c17BoundaryFeature reports whether the location addressed by a plain path is exactly one of the keys of the stored
+// document's chunk index (the location at which one chunk ends and the next begins), and in which scanner state.
+func c17BoundaryFeature(ns tree.NodeStore, stored sql.JSONWrapper, op c17Op) string {
+	idx, ok := stored.(tree.IndexedJsonDocument)
+	if !ok || (op.elems == nil && op.path != "$") {
+		return ""
+	}
+	var sb strings.Builder
+	sb.WriteByte('$')
+	for _, e := range op.elems {
+		if e.isIdx {
+			fmt.Fprintf(&sb, "[%d]", e.idx)
+		} else {
+			sb.WriteByte('.')
+			sb.WriteString(e.key)
+		}
+	}
+	want := sb.String()
+	root, err := tree.SerializeJsonToAddr(bg, ns, idx)
+	if err != nil || root.Level() == 0 {
+		return ""
+	}
+	feature := ""
+	_ = tree.WalkNodes(bg, root, ns, func(_ context.Context, nd *tree.Node) error {
+		if nd.Level() != 1 {
+			return nil
+		}
+		for i := 0; i < nd.Count(); i++ {
+			k := nd.GetKey(i)
+			if len(k) == 0 || int(k[0]) >= len(c17StateNames) {
+				continue
+			}
+			if tree.MySqlJsonPathFromKey(k) == want && feature == "" {
+				feature = "path-at-chunk-boundary(" + c17StateNames[k[0]] + ")"
+			}
+		}
+		return nil
+	})
+	return feature
 }
 
 func c17Show(r c17Result) string {
